@@ -2,3 +2,4 @@ CONSTANTS NSeeds = 12
 NMax = 4
 SPECIFICATION Spec
 INVARIANT HermOK
+INVARIANT LossOK
